@@ -1219,6 +1219,15 @@ class Interp:
         return self.subscript(base, idx, n, st)
 
     @staticmethod
+    def _is_partial_index(idx: Val):
+        """a slice with a literal bound (v[:, :2], v[1:], v[:-1]) somewhere in the index: a proper sub-array."""
+        items = idx.items if idx.kind == "indextuple" else (idx,)
+        for i in items:
+            if i.kind == "slice" and i.extra is not None and (i.extra.lower is not None or i.extra.upper is not None):
+                return True
+        return False
+
+    @staticmethod
     def _is_reshape_index(idx: Val):
         def one(i):
             if i.kind == "none" or (i.has_const() and (i.const is Ellipsis or i.const is None)):
@@ -1246,6 +1255,11 @@ class Interp:
     def subscript(self, base: Val, idx: Val, node, st) -> Val:
         self._rawuse(st, node, base)
         out = self._subscript(base, idx, node, st)
+        if base.al and out is not base and not out.has_const() and any(o != "param" for (o, _a) in base.al) and self._is_partial_index(idx):
+            # a proper part (some rows / columns) of a state array: pseudo-dependence that travels with the value (REPR-4)
+            out = out.copy(deps=out.deps | {("subset", a_) for (o_, a_) in base.al if o_ != "param"})
+        if "hull" in base.tags and out is not base and not out.has_const() and "hull" not in out.tags:
+            out = out.copy(tags=out.tags | {"hull"})        # rows / slices of qhull's own output keep that provenance
         if out is not base and getattr(out, "tr", None) is None and base.kind in ("arr", "unknown", "idx", "float") and not out.has_const():
             t_ = trans.subscript(base, idx)
             if t_ is not None:
@@ -1288,6 +1302,13 @@ class Interp:
         if base.items is not None and idx.has_const() and isinstance(idx.const, int) and not isinstance(idx.const, bool):
             try:
                 return base.items[idx.const]
+            except IndexError:
+                return Val()
+        if base.items is not None and idx.items is not None and idx.kind in ("list", "tuple") and idx.items \
+                and all(i_.has_const() and isinstance(i_.const, int) and not isinstance(i_.const, bool) for i_ in idx.items):
+            # fancy indexing of a small vector of known components by a literal index list: the selected components
+            try:
+                return base.copy(items=tuple(base.items[i_.const] for i_ in idx.items), const=NOCONST, al=frozenset(), born=self.time)
             except IndexError:
                 return Val()
         if base.items is not None and idx.kind == "slice" and base.kind in ("tuple", "list"):
@@ -1520,6 +1541,23 @@ class Interp:
             return l.copy(items=None, elem=self.element_of(l, st, node), born=now, const=NOCONST)
         if l.kind == "str" or r.kind == "str":
             return Val(kind="str", dim=D0, deps=deps, pdeps=pdeps, born=now)
+        # small vectors with known scalar components (np.array([a**2, b**2, c**2])): arithmetic is done component by component so
+        # that closed-form rules see each entry
+        def _vec(v_):
+            return v_.kind == "arr" and v_.items is not None and 0 < len(v_.items) <= 6 and all(i_.kind in ("float", "int") for i_ in v_.items)
+        if isinstance(op, (ast.Add, ast.Sub, ast.Mult, ast.Div)) and (_vec(l) or _vec(r)) and not getattr(self, "_in_vec", False):
+            n_ = len(l.items) if _vec(l) else len(r.items)
+            if (_vec(l) and _vec(r) and len(l.items) == len(r.items)) or (_vec(l) and r.kind in ("float", "int") and r.items is None) \
+                    or (_vec(r) and l.kind in ("float", "int") and l.items is None):
+                self._in_vec = True
+                try:
+                    its = tuple(self._binop(op, l.items[i] if _vec(l) else l, r.items[i] if _vec(r) else r, st, node) for i in range(n_))
+                finally:
+                    self._in_vec = False
+                d_ = ANY
+                for i_ in its:
+                    d_, _c = dim_unify(d_, i_.dim)
+                return Val(kind="arr", dim=d_, deps=deps, pdeps=pdeps, items=its, born=now)
         sym = None
         guardp = frozenset()
         if isinstance(op, (ast.Add, ast.Sub)):
